@@ -33,6 +33,10 @@ type chunkConn struct {
 	closed  bool
 	block   bool // an empty queue blocks the reader (parked-read mode) instead of failing
 	waiting int  // readers currently parked
+	// hold: the next Write delivers its bytes and then returns only when released (a kernel socket whose writer is
+	// descheduled: the peer already has the bytes, the caller does not know yet)
+	hold    bool
+	release chan struct{}
 }
 
 func (c *chunkConn) push(b []byte) {
@@ -64,11 +68,20 @@ func (c *chunkConn) Read(p []byte) (int, error) {
 }
 func (c *chunkConn) Write(p []byte) (int, error) {
 	c.mu.Lock()
-	defer c.mu.Unlock()
 	if c.closed {
+		c.mu.Unlock()
 		return 0, net.ErrClosed
 	}
-	return c.w.Write(p)
+	n, err := c.w.Write(p)
+	if c.hold {
+		c.hold = false
+		rel := c.release
+		c.mu.Unlock()
+		<-rel
+		return n, err
+	}
+	c.mu.Unlock()
+	return n, err
 }
 func (c *chunkConn) written() []byte {
 	c.mu.Lock()
@@ -130,6 +143,12 @@ func sealedHello(outerExts, innerExts []aExt, enc aEnc, cid int, suite string, o
 // replayConnCase replays one history. parked: a Read that follows a Write in the history is already blocked in the
 // transport when the Write happens (a proxy with one goroutine per direction), the record arriving afterwards.
 func replayConnCase(kr *keyring, c *connCase, parked, byref bool) (diff string) {
+	return replayConnCaseMode(kr, c, parked, byref, false)
+}
+
+// latewrite: the transport Write that carries the HelloRetryRequest has delivered its bytes but has not returned yet when
+// the client's answer is read (two goroutines, one per direction).
+func replayConnCaseMode(kr *keyring, c *connCase, parked, byref, latewrite bool) (diff string) {
 	defer func() {
 		if r := recover(); r != nil {
 			diff = fmt.Sprint("panic: ", r)
@@ -249,6 +268,13 @@ func replayConnCase(kr *keyring, c *connCase, parked, byref bool) (diff string) 
 		err error
 	}
 	var pending chan readRes // a Read started before the preceding Write
+	var lateW chan error     // a Write(HRR) whose transport call has not returned yet
+	var lateRel chan struct{}
+	defer func() {
+		if lateRel != nil {
+			close(lateRel)
+		}
+	}()
 	tr.mu.Lock()
 	tr.block = parked
 	tr.mu.Unlock()
@@ -323,10 +349,50 @@ func replayConnCase(kr *keyring, c *connCase, parked, byref bool) (diff string) 
 			if want[0] != "abort" && len(tr.written()) != before {
 				return fmt.Sprintf("step %d read %s: unexpected bytes written to the client", i+1, sym)
 			}
+			if lateW != nil { // now the transport Write returns
+				close(lateRel)
+				lateRel = nil
+				select {
+				case werr := <-lateW:
+					if werr != nil {
+						return fmt.Sprintf("step %d: the Write of the HelloRetryRequest failed: %v", i, werr)
+					}
+				case <-time.After(watchdogLimit()):
+					noteHang()
+					return fmt.Sprintf("step %d: the Write of the HelloRetryRequest did not return", i)
+				}
+				lateW = nil
+			}
 		} else {
 			rec, ok := fixed[sym]
 			if !ok {
 				rec = serverHello(sym == "HRR")
+			}
+			if latewrite && sym == "HRR" && want[0] == "fwd" && i+1 < len(c.Hist) && c.Hist[i+1][0] == "r" && lateW == nil {
+				before := len(tr.written())
+				tr.mu.Lock()
+				tr.hold, tr.release = true, make(chan struct{})
+				rel := tr.release
+				tr.mu.Unlock()
+				ch := make(chan error, 1)
+				go func() {
+					defer func() {
+						if p := recover(); p != nil {
+							ch <- fmt.Errorf("panic in Conn.Write: %v", p)
+						}
+					}()
+					_, err := conn.Write(rec)
+					ch <- err
+				}()
+				for k := 0; k < 4000 && len(tr.written()) < before+len(rec); k++ {
+					time.Sleep(50 * time.Microsecond)
+				}
+				if !bytes.Equal(tr.written()[before:], rec) {
+					close(rel)
+					return fmt.Sprintf("step %d write HRR: not forwarded", i+1)
+				}
+				lateW, lateRel = ch, rel
+				continue
 			}
 			before := len(tr.written())
 			var n int
@@ -421,6 +487,11 @@ func TestEchConnHistories(t *testing.T) {
 			if results[i] == "" && parkedMode(&cases[i]) {
 				if d := replayConnCase(kr, &cases[i], true, false); d != "" {
 					results[i] = "(Read parked before the Write) " + d
+				}
+			}
+			if results[i] == "" && parkedMode(&cases[i]) {
+				if d := replayConnCaseMode(kr, &cases[i], false, false, true); d != "" {
+					results[i] = "(the transport Write of the HelloRetryRequest returns after the client's answer was read) " + d
 				}
 			}
 			if results[i] == "" && cases[i].First == "acc" && hasCH2(&cases[i]) {
